@@ -396,6 +396,8 @@ struct Measured {
 	clock_ticks_at: Vec<(f64, f64)>,
 	tween_done: Option<f64>,
 	echo_delay: Option<f64>,
+	/// level of the 1200 Hz tone behind the 300 Hz low-pass, late in the run
+	tone_rms: f64,
 }
 
 #[allow(clippy::too_many_arguments)]
@@ -426,11 +428,20 @@ fn run_seconds(
 		};
 		let Ok(mut w) = World::new(&cfg, None) else { return res };
 		// track 0: the finite sound (duration). track 1: DC sound with a volume tween. track 2: impulse into a delay.
-		for i in 0..3 {
+		for i in 0..4 {
 			w.exec(&Op::AddTrack {
 				parent: None,
 				spec: TrackSpec {
-					effects: if i == 2 {
+					effects: if i == 3 {
+						// a 300 Hz low-pass in front of a 1200 Hz tone: its attenuation is a
+						// statement in hertz
+						vec![EffectSpec::Filter {
+							mode: FilterModeS::LowPass,
+							cutoff: Val::Fixed(300.0),
+							resonance: Val::Fixed(0.0),
+							mix: Val::Fixed(MixS(1.0)),
+						}]
+					} else if i == 2 {
 						vec![EffectSpec::Delay {
 							time: delay_secs,
 							// (the delayed signal is scaled by the feedback gain before it is output)
@@ -477,6 +488,24 @@ fn run_seconds(
 				..Default::default()
 			},
 		});
+		// track 3: a 1200 Hz tone, hard right (everything else is centred: right - left isolates it)
+		w.exec(&Op::PlayStatic {
+			track: Some(3),
+			data: DataSpec {
+				len: (sound_rate as f64 * 0.6) as usize,
+				sample_rate: sound_rate,
+				signal: Signal::Sine {
+					cpf: 1200.0 / sound_rate as f32,
+					amp: 0.2,
+				},
+			},
+			slice: None,
+			settings: SoundSettingsSpec {
+				panning: Val::Fixed(Pan(1.0)),
+				..Default::default()
+			},
+		});
+		let (mut tone_sq, mut tone_n) = (0.0f64, 0u64);
 		let mut m = Measured::default();
 		let mut t = 0.0f64; // seconds of audio rendered
 		let mut cur_rate = *rate;
@@ -534,6 +563,11 @@ fn run_seconds(
 				let s = w.out[2 * i];
 				trace.f32(s);
 				let ts = t + (i + 1) as f64 / cur_rate as f64;
+				if ts >= 0.33 && ts < 0.43 {
+					let d = (w.out[2 * i + 1] - s) as f64;
+					tone_sq += d * d;
+					tone_n += 1;
+				}
 				if s > 0.4 && m.echo_delay.is_none() {
 					if let Some(t0) = impulse_at {
 						m.echo_delay = Some(ts - t0);
@@ -553,6 +587,7 @@ fn run_seconds(
 				m.clock_ticks_at.push((t - secs, ct.ticks as f64 + ct.fraction));
 			}
 		}
+		m.tone_rms = if tone_n > 0 { (tone_sq / tone_n as f64).sqrt() } else { 0.0 };
 		res.frames += w.frames_rendered;
 		res.callbacks += w.callbacks;
 		res.sim_seconds += t;
@@ -604,6 +639,24 @@ fn run_seconds(
 	res.hit("seconds_worlds_compared");
 	beh.u64(rates.iter().map(|r| *r as u64).sum());
 	beh.u64(change_to as u64);
+	// the low-pass attenuates the tone by the same factor in every world (its cutoff is in hertz);
+	// the bilinear warp at low device rates accounts for up to ~20%
+	if res.violation.is_none() && sound_rate >= 8000 {
+		let lv: Vec<f64> = results.iter().map(|(m, _)| m.tone_rms).collect();
+		let (lo, hi) = (lv.iter().cloned().fold(f64::MAX, f64::min), lv.iter().cloned().fold(0.0, f64::max));
+		if !(lo > 0.0) || hi / lo > 1.6 {
+			res.fail(Violation::new(
+				"seconds",
+				"filter-frequency-depends-on-device-rate",
+				format!(
+					"a 1200 Hz tone behind a 300 Hz low-pass comes out at rms {:?} in the worlds at {:?} Hz (the last one changing to {change_to} Hz at {change_at:.3}s): the attenuation differs by more than 1.6x",
+					lv, rates
+				),
+			));
+		} else {
+			res.hit("filter_levels_compared");
+		}
+	}
 	beh.u64(sound_len as u64 / 500);
 	res.nontrivial = true;
 	let _ = case;
@@ -629,7 +682,7 @@ impl Check for C16 {
 		CheckInfo {
 			id: "C16",
 			level: "exploration",
-			rule: "three streams. orders (1/2): seeded sequences over {add (nested) track with a rate-probe effect, add send track with one, drop a track handle (the track lives on while a track below it is alive), change the device sample rate, callback} from 8 kHz to 192 kHz; sched (1/4): a gameplay task adding (nested) tracks against a device task changing the rate and running callbacks, under seeded random schedules at the yield points between reading the shared sample rate and enqueueing the track and inside on_change_sample_rate; seconds (1/4): one scene described in seconds (finite sound at any source rate and playback rate, clock, volume tween, delay echo) rendered in three worlds at different device rates, the third changing its rate mid-stream; non-trivial = at least two effect process calls checked / worlds compared; distinct = hash of the per-callback (rate, probes) sequence, of the yield trace, of the scene parameters",
+			rule: "three streams. orders (1/2): seeded sequences over {add (nested) track with a rate-probe effect, add send track with one, drop a track handle (the track lives on while a track below it is alive), change the device sample rate, callback} from 8 kHz to 192 kHz; sched (1/4): a gameplay task adding (nested) tracks against a device task changing the rate and running callbacks, under seeded random schedules at the yield points between reading the shared sample rate and enqueueing the track and inside on_change_sample_rate; seconds (1/4): one scene described in seconds (finite sound at any source rate and playback rate, clock, volume tween, delay echo, a tone behind a low-pass filter) rendered in three worlds at different device rates, the third changing its rate mid-stream; non-trivial = at least two effect process calls checked / worlds compared; distinct = hash of the per-callback (rate, probes) sequence, of the yield trace, of the scene parameters",
 			assumptions: vec![
 				"seconds-domain comparisons allow two callbacks plus a few frames of slack (events are issued at callback boundaries)".into(),
 				"the delay effect restarts with an empty line when the rate changes; the echo is measured from a click issued after the change".into(),
